@@ -193,10 +193,12 @@ pub mod atomic {
             if sched {
                 let (tag, old) = match r { Ok(v) => ("ok", v), Err(v) => ("fail", v) };
                 log(format!("{} cas{} {}/{} {}>{} {}{}", tid().unwrap(), self.loc(), o(s), o(f), cur, new, tag, old));
-                if r.is_ok() {
-                    if let Some(f) = ON_CAS_OK.with(|c| c.take()) {
-                        f();
-                    }
+            }
+            // also in free-run mode (after truncation / a reported deadlock): the bookkeeping of a guard that lives
+            // inside library code must not depend on whether the controller is still scheduling
+            if r.is_ok() {
+                if let Some(f) = ON_CAS_OK.with(|c| c.take()) {
+                    f();
                 }
             }
             r
